@@ -544,6 +544,68 @@ def check_results_passed_back(ctx):
                           'direct calls give %r; through the sandbox %r (exception %r)' % (want, got, e))
 
 
+def check_calls_with_inputs(ctx):
+    """'the same inputs': the inputs given to one call (or run) are what the student's code reads during it, in order - whatever an
+    earlier execution in the sandbox left unread. Histories of run(inputs=)/call(inputs=)/evaluate over a program that reads."""
+    from pedal.core.commands import clear_report, contextualize_report
+    from pedal.sandbox import commands as sbx
+    src = ("def ask(n=1):\n    got = []\n    for _ in range(n):\n        got.append(input('next? '))\n    return got\n"
+           "def total(n):\n    return sum(int(input()) for _ in range(n))\n"
+           "first = input('first? ')\n")
+    rng = ctx.rng
+    for trial in range(ctx.pick(12, 200)):
+        steps = []
+        for _ in range(rng.randint(2, 6)):
+            kind = rng.choice(['run', 'call-ask', 'call-total', 'call-ask-kw'])
+            given = [str(rng.randrange(1, 50)) for _ in range(rng.randint(0, 4))]
+            steps.append((kind, given, rng.randint(0, 3)))
+        case = {'src': src, 'scenario': 'calls-with-inputs', 'steps': steps}
+        _calls_with_inputs_history(ctx, case)
+
+
+def _calls_with_inputs_history(ctx, case):
+    from pedal.core.commands import clear_report, contextualize_report
+    from pedal.sandbox import commands as sbx
+    src = case['src']
+    clear_report()
+    contextualize_report(src)
+    ref_ns = None
+    for idx, (kind, given, n) in enumerate(case['steps']):
+        queue = list(given)
+
+        def fake_input(prompt='', queue=queue):
+            return queue.pop(0) if queue else '0'
+        where = dict(case, upto=idx)
+        try:
+            if kind == 'run' or ref_ns is None:
+                kind = 'run'
+                ref_ns = {'__name__': '__main__', 'input': fake_input}
+                with contextlib.redirect_stdout(io.StringIO()):
+                    exec(compile(src, 'answer.py', 'exec'), ref_ns)
+                want = ref_ns['first']
+                sbx.run(inputs=list(given))
+                got = unwrap(sbx.get_sandbox().data.get('first'))
+            else:
+                ref_ns['input'] = fake_input
+                fname = 'total' if kind == 'call-total' else 'ask'
+                with contextlib.redirect_stdout(io.StringIO()):
+                    want = ref_ns[fname](n)
+                if kind == 'call-ask-kw':
+                    got = unwrap(sbx.call(fname, n=n, inputs=list(given)))
+                else:
+                    got = unwrap(sbx.call(fname, n, inputs=list(given)))
+            e = sbx.get_exception()
+        except BaseException as ex:
+            ctx.violation('C06|call-with-inputs-raised|%s|%s' % (kind, type(ex).__name__), where, traceback.format_exc()[-400:])
+            return
+        ctx.count('executions_with_given_inputs')
+        if e is not None or got != want:
+            ctx.violation('C06|result-differs-with-given-inputs|%s|%s' % (kind, 'after-unread-inputs' if idx else 'first'), where,
+                          'with inputs %r CPython gives %r; the sandbox %r (exception %r)' % (given, want, got, e))
+            return
+    ctx.case('I:' + repr(case['steps']))
+
+
 def run(ctx):
     from gen.programs import gen_program
     rng = ctx.rng
@@ -551,6 +613,8 @@ def run(ctx):
     nval = ctx.pick(2, 25)
     if ctx.shard % 4 == 0:
         check_results_passed_back(ctx)
+    if ctx.shard % 4 == 1:
+        check_calls_with_inputs(ctx)
     specials = special_programs()
     for name, src, functions in specials[ctx.shard % 3::3]:
         ctx.seen('special_programs', name)
@@ -592,6 +656,8 @@ def run(ctx):
 def replay(ctx, case):
     if case.get('scenario') == 'result-passed-back':
         return check_results_passed_back(ctx)
+    if case.get('scenario') == 'calls-with-inputs':
+        return _calls_with_inputs_history(ctx, case)
     case = dict(case)
     case.pop('_rng', None)
     call = case.pop('call', None)
